@@ -92,7 +92,7 @@ static std::string serialize(const CaseResult &r)
   std::string o;
   int32_t k = r.kind;
   o.append((const char *) &k, 4);
-  o.push_back(r.nontrivial ? 1 : 0);
+  o.push_back((char) ((r.nontrivial ? 1 : 0) | (r.unique_by_construction ? 2 : 0)));
   o.append((const char *) &r.hash, 8);
   put_str(o, r.msg);
   put_str(o, r.sig);
@@ -109,7 +109,8 @@ static bool deserialize(const std::string &in, CaseResult &r)
   int32_t k;
   memcpy(&k, in.data(), 4);
   r.kind = k;
-  r.nontrivial = in[4] != 0;
+  r.nontrivial = (in[4] & 1) != 0;
+  r.unique_by_construction = (in[4] & 2) != 0;
   memcpy(&r.hash, in.data() + 5, 8);
   size_t pos = 13;
   std::string cls;
@@ -314,7 +315,7 @@ static CaseResult exec_case(const std::vector<uint32_t> &words, long sweep)
 // --------------------------------------------------------- accounting ------
 
 struct Stats {
-  uint64_t evaluations = 0, inconclusive = 0, shrink_evals = 0;
+  uint64_t evaluations = 0, inconclusive = 0, shrink_evals = 0, nontrivial_unique = 0;
   std::set<uint64_t> nontrivial;
   std::map<std::string, uint64_t> classes, known_hits;
   std::vector<std::string> samples;
@@ -332,7 +333,8 @@ static void account(const CaseResult &r, const std::vector<uint32_t> &words, lon
   }
   for (auto &c : r.classes) g_stats.classes[c]++;
   if (r.nontrivial) {
-    g_stats.nontrivial.insert(r.hash);
+    if (r.unique_by_construction) g_stats.nontrivial_unique++;
+    else g_stats.nontrivial.insert(r.hash);
     g_stats.nontrivial_seen++;
     uint64_t n = g_stats.nontrivial_seen;
     if (n == 1 || n == 7 || n == 50 || n == 400 || n == 3000 || n == 20000) {
@@ -380,6 +382,7 @@ static void write_out(const std::string &path, double t0)
                       .kv("inconclusive", (unsigned long long) g_stats.inconclusive)
                       .raw("inconclusive_samples", jarr(inc))
                       .raw("nontrivial_hashes", jnums(hashes))
+                      .kv("nontrivial_unique", (unsigned long long) g_stats.nontrivial_unique)
                       .raw("classes", cls.str())
                       .raw("known_hits", kh.str())
                       .raw("samples", jarr(g_stats.samples))
